@@ -57,6 +57,7 @@ structure Sess where
   nbrs : Nat → List Nat := fun _ => []
   forest : List Tree := []
   mlevels : List (Nat × Int) := []
+  heap : Heap := {}
   deriving Inhabited
 
 def Sess.val (s : Sess) (p : Nat) : Int := (s.vals.getD p none).getD 0
@@ -345,6 +346,47 @@ def doIdentify (m : List (String × String)) : Option (List String) := do
   let r := Identify.identify name read head
   some [ s!"format {match r with | some .fits => "fits" | some .hdf5 => "hdf5" | none => "none"}", "end" ]
 
+
+/-! ## the cache machine (C14) driven with the implementation's histories -/
+
+def heapOfForest (f : List Tree) : Heap :=
+  let rs := rows f
+  { objs := rs.map fun r => { id := r.id, parent := r.parent, kids := r.kids, own := r.own },
+    alive := rs.map (·.id) }
+
+/-- `TreeIndex.__init__` evaluates `level` of every structure (in `_structures_dict` order) -/
+def levelSweep (h : Heap) (ids : List Nat) : Heap := ids.foldl (fun h i => (h.level h.size i).1) h
+
+def seedTrunk (h : Heap) : Heap :=
+  { h with objs := h.objs.map fun o => if h.alive.contains o.id && o.parent.isNone then { o with lvl := some 0 } else o }
+
+def cacheState (h : Heap) : List String :=
+  (h.objs.filter fun o => h.alive.contains o.id).map fun o =>
+    s!"c id={o.id} par={optNat o.parent} kids={joinNat o.kids} lvl={optNat o.lvl} anc={optNat o.anc} desc={if o.desc.isSome then 1 else 0} nw={if o.nw.isSome then 1 else 0}"
+
+def doCache (s : Sess) (ws : List String) : Option (Sess × List String) :=
+  match ws with
+  | ["init", ids] => do
+    let order ← parseNatList ids
+    let h := levelSweep (seedTrunk (heapOfForest s.forest)) order
+    some ({ s with heap := h }, cacheState h ++ ["end"])
+  | ["q", kind, i] => do
+    let i ← i.toNat?
+    let h := s.heap
+    let (h', ans) ← match kind with
+      | "level" => let r := h.level h.size i; some (r.1, optNat r.2)
+      | "anc" => let r := h.ancestor h.size i; some (r.1, optNat r.2)
+      | "desc" => let r := h.descendants h.size i; some (r.1, match r.2 with | some d => joinNat (sortNat d) | none => "none")
+      | "newick" => let r := h.newick h.size i; some (r.1, r.2)
+      | _ => none
+    some ({ s with heap := h' }, [s!"ans {ans}"] ++ cacheState h' ++ ["end"])
+  | ["prune", merges, ids] => do
+    let ms ← parseNatList merges
+    let order ← parseNatList ids
+    let h := levelSweep (s.heap.prune ms) order
+    some ({ s with heap := h }, cacheState h ++ ["end"])
+  | _ => none
+
 def simple (s : Sess) (r : Option (List String)) (name : String) : Sess × List String :=
   match r with
   | some out => (s, out)
@@ -376,6 +418,10 @@ def handle (s : Sess) (line : String) : Sess × List String :=
   | "wrap" :: rest => simple s (doWrap (kvs rest)) "wrap"
   | "flux" :: rest => simple s (doFlux (kvs rest)) "flux"
   | "fluxerr" :: rest => simple s (doFluxErr (kvs rest)) "fluxerr"
+  | "cache" :: rest =>
+    match doCache s rest with
+    | some (s', out) => (s', out)
+    | none => (s, ["bad-op cache", "end"])
   | "plot" :: rest => simple s (doPlot s (kvs rest)) "plot"
   | "hub" :: rest => simple s (doHub s (kvs rest)) "hub"
   | "eq" :: rest => simple s (doEq (kvs rest)) "eq"
